@@ -49,8 +49,8 @@ def record_before_encode(F, res):
     pol = Policy(effects=[r'wasm_encoder::Function::(instruction|byte_len)$', r'std::vec::Vec::push$'],
                  inline=lambda p: not p.startswith('emit::IdsToIndices'))
     ev = Evaluator(F, pol)
-    self_t = ctor(EMIT, 'Emit', [('indices', sym('eindices')), ('local_indices', sym('local_indices')), ('blocks', sym('blocks')),
-                                 ('block_kinds', sym('block_kinds')), ('encoder', sym('encoder')), ('map', some(sym('MAP')))])
+    import flowlib
+    _, self_t, _unk = flowlib.emit_self(F, some(sym('MAP')))
     instr = ctor('ir::Instr', 'Drop', [('0', ctor('ir::Drop', 'Drop', []))])
     seq = ctor('ir::InstrSeq', 'InstrSeq', [('id', sym('sid')), ('ty', sym('sty')), ('instrs', sym('instrs')), ('end', sym('send'))])
     for name, fn, args, loc in (('visit_instr', emits['visit_instr'], [self_t, instr, sym('loc')], 'loc'),
